@@ -166,6 +166,9 @@ def check(ctx, run):
                'CONTAINER_TAG': {'nested'}, 'otherwise': {'Err'}}
         for k, v in exp.items():
             ok = table.get(k) == v
+            if not ok and not table.get(k):
+                run.undecided('R19.2', b.path, f'tag[{k}]', f'expected {sorted(v)}; no arm for this entry kind was recognised in this function (restructured?): not decided', loc)
+                continue
             (run.proved if ok else run.violation)('R19.2', b.path, f'tag[{k}]', f'-> {sorted(v)[0]}' if ok else f'expected {sorted(v)}, found {sorted(table.get(k, []))}', loc)
         expn = {'Int64': {('Ok', 'from<i64>')}, 'UInt64': {('Ok', 'from<u64>')}, 'Float64': {('Ok', 'from_f64'), ('Err', 'non-finite')}}
         for nv, want in expn.items():
